@@ -58,7 +58,7 @@ static void apply_settings(int argc, char** argv) {
     G.op_cpu_seconds = std::stol(cpu);
   G.sanitizer = G.variant.find("asan") != std::string::npos || G.variant.find("tsan") != std::string::npos || G.variant.rfind("cfg-", 0) == 0;
   if (G.sanitizer)
-    G.op_cpu_seconds *= 4;
+    G.op_cpu_seconds *= 3;
 }
 
 static std::string plan_with_result(Plan p, const RunResult& r, const Violation& v) {
